@@ -88,7 +88,22 @@ def check(ctx):
            if ok else f"_split_X returns {A2.show(rs.ret, 200)}", construct="_split_X formula")
     # lookup_: name -> position
     rl = A2.run(CLS + "._create_lookup", cls_ctx=CLS)
-    st = stores_attr(rl, "lookup_")
-    ok = bool(st) and all(e.data["value"].op == "comp" for e in st)
-    ctx.ob("R15.4", rl.func, st[0].node if st else None, ok, "lookup_ maps each column name (or index) to its position",
-           construct="lookup_ definition")
+    from ..region import specialise
+    Xl = rl.params["X"]
+    is_df = mk("call", glob("builtins.isinstance"), (Xl, glob("pandas.DataFrame")), ())
+    final = rl.final.heap.get((rl.self_term, "lookup_")) if rl.final is not None else None
+    bad = []
+    if final is None:
+        bad.append("lookup_ is not assigned")
+    else:
+        got_df = specialise(final, {is_df: True})
+        want_df = A2.entry(rl, "{c: i for i, c in enumerate(X.columns)}")
+        if not A2.eq(got_df, want_df):
+            bad.append(f"DataFrame input: lookup_ = {A2.show(got_df, 160)} (documented: column label -> position for every DataFrame)")
+        got_arr = specialise(final, {is_df: False})
+        arr_ok = any(s_.op == "comp" and s_.args[0] == "dict" and s_.args[1].op == "kv" and s_.args[1].args[0] is s_.args[1].args[1]
+                     for s_ in subterms(got_arr))
+        if not arr_ok:
+            bad.append(f"array input: lookup_ = {A2.show(got_arr, 120)} (documented: identity on column positions)")
+    ctx.ob("R15.4", rl.func, None, not bad, "lookup_ maps each column label of a DataFrame to its position (identity for arrays)"
+           if not bad else "; ".join(bad), construct="lookup_ definition")
